@@ -522,11 +522,31 @@ def pipeline_probes(ctx, rng):
                         if not rel_ok(np.ravel(g_a), g_i, amp):
                             viol("srf-structured", "structured SRF != isotropic model at the isometrized grid", dict(case, axes=[hexl(a) for a in axs]))
                     # --- incompressible vector field
+                    # C12 for VECTOR fields (design/C12.md "Vector fields"): a model with ratios != 1 is evaluated at the
+                    # isometrized positions with untouched components, like every scalar field.  A model the implementation
+                    # classifies as isotropic (all ratios isclose to 1) is, whatever its angles, the SAME model as its unrotated
+                    # twin (C12_iso_rad_rotation_invariant: rotation alone changes no distance); its vector field is the
+                    # twin's field in the GIVEN coordinates (components live in the frame of the coordinates; C16 needs
+                    # that for incompressibility, /repo fa84f81), not the twin's components at de-rotated positions.
                     if dim in (2, 3):
                         v_a = gs.SRF(m, seed=seed, mode_no=32, generator="VectorField")(pos)
-                        v_i = gs.SRF(iso, seed=seed, mode_no=32, generator="VectorField")(ip)
+                        iso_class = bool(m.is_isotropic)
+                        ctx.count(("vector", name, dim, kind, iso_class), hist=dict(vector_field="isotropic+angles: given coordinates" if iso_class
+                                                                                 else "ratios != 1: isometrized positions"))
+                        v_i = gs.SRF(iso, seed=seed, mode_no=32, generator="VectorField")(pos if iso_class else ip)
                         if not rel_ok(v_a, v_i, amp):
-                            viol("vector-field", "VectorField SRF with anisotropic model != isotropic model at isometrize(x)", case)
+                            if iso_class:
+                                viol("vector-field-isotropic", "VectorField SRF of an isotropic model with rotation angles != the unrotated "
+                                     "isotropic model's field at the given positions", case)
+                            else:
+                                viol("vector-field", "VectorField SRF with anisotropic model != isotropic model at isometrize(x)", case)
+                        if dim <= 3 and iso_class:
+                            axs = [np.sort(rng.uniform(-3, 3, size=3)) * m.len_scale for _ in range(dim)]
+                            w_a = gs.SRF(m, seed=seed, mode_no=32, generator="VectorField").structured(axs)
+                            w_i = gs.SRF(iso, seed=seed, mode_no=32, generator="VectorField").structured(axs)
+                            if not rel_ok(w_a, w_i, amp):
+                                viol("vector-field-isotropic", "structured VectorField SRF of an isotropic model with rotation angles != the "
+                                     "unrotated isotropic model's field on the same grid", dict(case, axes=[hexl(a) for a in axs]))
                     # --- kriging
                     nc = 8
                     cpos = rng.uniform(-5, 5, size=(dim, nc)) * m.len_scale
@@ -1019,6 +1039,9 @@ def run(ctx):
         "pipeline statement (SRF/Krige/CondSRF results depend on positions only through isometrize) is probed on the "
         "implementation, and proved only in the form: the isotropic twin's isometrize is the identity",
         "lat-lon branch of isometrize/anisometrize belongs to C13",
+        "vector fields: for models classified isotropic (np.isclose(anis, 1)) with angles the claim is 'same field as the unrotated "
+        "twin in the given coordinates' (see design/C12.md, Vector fields); inside the isclose band (|anis-1| <= 1e-8 + 1e-5) the "
+        "implementation drops the ratio for vector fields",
         "floating-point rounding",
     ]
     proofs_ok = ctx.proofs("props/C12.v")
